@@ -188,8 +188,9 @@ def run_server(mode, wd, v, pre=False, rnd=None):
     st = os.path.join(wd, f"strace_{mode}.txt")
     ok = False
     if mode == "stdio":
+        errf = os.path.join(home, "server_stderr.txt")
         p = subprocess.Popen(["strace", "-f", "-ttt", "-o", st, "-e", "trace=" + SYSCALLS, LS_BIN, "--stdio"], stdin=subprocess.PIPE,
-                             stdout=subprocess.PIPE, stderr=subprocess.DEVNULL, env=env, cwd=home, start_new_session=True)
+                             stdout=subprocess.PIPE, stderr=open(errf, "wb"), env=env, cwd=home, start_new_session=True)
         c = lspclient.Client(p.stdout, p.stdin, settings)
         try:
             if rnd:
@@ -245,7 +246,14 @@ def run_server(mode, wd, v, pre=False, rnd=None):
     wrote = {e["pclass"] for e in evs if e["call"] == "open_write"}
     if not ok:
         # a request timed out or the pipe broke: nothing can be concluded from a half-played session
-        raise common.ToolError(f"the {mode} session with harper-ls did not run to its end")
+        panic = ""
+        try:
+            err = open(os.path.join(home, "server_stderr.txt"), errors="replace").read()
+            if "panicked at" in err:
+                panic = " (the server's stderr: " + err[err.index("panicked at"):][:300].replace("\n", " ") + ")"
+        except OSError:
+            pass
+        raise common.ToolError(f"the {mode} session with harper-ls did not run to its end" + panic)
     persisted = True if (rnd or pre == "blocked") else {"userDict", "fileDict", "stats"} <= wrote     # random sessions need not touch every file
     return ([{"ev": "Proc", "mode": mode}] + evs + [{"ev": "SessionOk", "ok": persisted, "wrote": sorted(wrote)}]), raw
 
